@@ -397,6 +397,14 @@ pub(crate) struct LogReader {
     /// True if the end of the file was reached while the fragments of a record were still being
     /// collected i.e. the file ends with the leading fragments of an unfinished record.
     ended_inside_record: bool,
+
+    /**
+    True once a damaged fragment was skipped (only happens when `fail_on_corruption` is off).
+
+    A file that contains a damaged fragment must not be appended to. The reader skips the rest of
+    the block that holds the damage, so records appended to that block later would be skipped too.
+    */
+    skipped_damaged_fragment: bool,
 }
 
 /// Public methods
@@ -424,6 +432,7 @@ impl LogReader {
             current_block_offset: 0,
             fail_on_corruption: false,
             ended_inside_record: false,
+            skipped_damaged_fragment: false,
         };
 
         Ok(reader)
@@ -558,7 +567,9 @@ impl LogReader {
     bytes that a reader cannot get past, so such a file must not be reused for appends.
     */
     pub(crate) fn is_at_clean_end(&self) -> LogIOResult<bool> {
-        Ok(!self.ended_inside_record && self.current_cursor_position as u64 == self.len()?)
+        Ok(!self.ended_inside_record
+            && !self.skipped_damaged_fragment
+            && self.current_cursor_position as u64 == self.len()?)
     }
 }
 
@@ -609,6 +620,7 @@ impl LogReader {
         }
 
         // Read the header
+        let fragment_start_position = self.current_cursor_position;
         let mut header_buffer = [0; HEADER_LENGTH_BYTES];
         let header_bytes_read = self.log_file.read(&mut header_buffer)?;
         if header_bytes_read < HEADER_LENGTH_BYTES {
@@ -648,12 +660,40 @@ impl LogReader {
 
         // Parse the payload
         let serialized_block = [header_buffer.to_vec(), data_buffer].concat();
-        let block_record: BlockRecord = BlockRecord::try_from(&serialized_block)?;
+        let block_record: BlockRecord = match BlockRecord::try_from(&serialized_block) {
+            Ok(block_record) => block_record,
+            Err(parse_error) => {
+                /*
+                The fragment is damaged and the damage may be in the length field itself. If the
+                length were trusted, reading could continue in the middle of user data that
+                happens to look like a valid fragment. Like LevelDB, drop the rest of the block
+                and continue at the next block boundary where a header is guaranteed to start.
+                */
+                self.skip_to_next_block(fragment_start_position)?;
+                self.skipped_damaged_fragment = true;
+
+                return Err(parse_error.into());
+            }
+        };
         self.current_cursor_position += header_buffer.len() + data_bytes_read;
         self.current_block_offset =
             (self.current_block_offset + data_bytes_read) % BLOCK_SIZE_BYTES;
 
         Ok(block_record)
+    }
+
+    /**
+    Position the reader at the start of the block that follows the block containing
+    `position_in_block` (or at the end of the file if that comes first).
+    */
+    fn skip_to_next_block(&mut self, position_in_block: usize) -> LogIOResult<()> {
+        let next_block_start = (position_in_block / BLOCK_SIZE_BYTES + 1) * BLOCK_SIZE_BYTES;
+        let new_position = std::cmp::min(next_block_start as u64, self.len()?);
+        self.log_file.seek(SeekFrom::Start(new_position))?;
+        self.current_cursor_position = new_position as usize;
+        self.current_block_offset = self.current_cursor_position % BLOCK_SIZE_BYTES;
+
+        Ok(())
     }
 
     /// Get the length of the underlying log file.
